@@ -118,3 +118,23 @@ def fmod_pos(x, y):
     """exact fmod for x >= 0, y > 0"""
     r = z3.fpRem(x, y)
     return z3.If(z3.fpLT(r, ZERO), z3.fpAdd(RNE, r, y), r)
+
+
+def has_op(e, names, seen=None):
+    seen = seen if seen is not None else set()
+    if e.get_id() in seen: return False
+    seen.add(e.get_id())
+    if z3.is_app(e) and e.decl().name() in names: return True
+    return any(has_op(c, names, seen) for c in e.children())
+
+
+def past_end_obligations(check, S, prefix, bound, to):
+    """strictly past cycle*(repeats+1) since the delay  =>  Ended (per execution path of get_position that does NOT end;
+    path-condition conjuncts that mention fp.rem / fp.div are irrelevant to the end test and dropped: sound for unsat)"""
+    T = S.total_active()
+    for k, r in enumerate(S.pos_paths):
+        if r.outcome != 'ok' or r.value.d == 2: continue
+        pcf = [c for c in r.pc if not has_op(c, ('fp.rem', 'fp.div'))]
+        o = check.add(Obligation(f'{prefix}.K-past-the-end-is-ended[path{k}]', S.valid() + bound + pcf + [S.rd != 2, z3.fpGT(S.tm(), T)], S.inputs, timeout=to,
+                                 words='time since the delay strictly beyond cycle*(repeats+1) => the time scale reports Ended (terminal value, no further change)'))
+        o.S = S
